@@ -1121,15 +1121,23 @@ pub(crate) struct CallFrame {
     pub(crate) closure: Gc<ObjClosure>,
     pub(crate) ip: *const u8,
     pub(crate) slot_base: usize,
+    /// Value and address of a `return` that waits for the finally blocks of this call to finish.
+    pub(crate) pending_return: Option<(Value, *const u8)>,
 }
 
 impl GcManaged for CallFrame {
     fn mark(&self) {
         self.closure.mark();
+        if let Some((value, _)) = self.pending_return.as_ref() {
+            value.mark();
+        }
     }
 
     fn blacken(&self) {
         self.closure.blacken();
+        if let Some((value, _)) = self.pending_return.as_ref() {
+            value.blacken();
+        }
     }
 }
 
@@ -1156,9 +1164,7 @@ pub struct ObjFiber {
     pub(crate) native_arity: Option<usize>,
     pub(crate) open_upvalues: Option<Gc<RefCell<ObjUpvalue>>>,
     pub(crate) call_arity: usize,
-    pub(crate) return_value: Value,
     pub(crate) exc_handlers: Vec<ExcHandler>,
-    pub(crate) return_ip: Option<*const u8>,
     pub(crate) error_ip: Option<*const u8>,
     /// An exception is propagating through this fiber's finally blocks.
     pub(crate) handling_exception: bool,
@@ -1172,6 +1178,7 @@ impl ObjFiber {
             closure,
             ip,
             slot_base: 0,
+            pending_return: None,
         });
         ObjFiber {
             class,
@@ -1181,9 +1188,7 @@ impl ObjFiber {
             native_arity: None,
             open_upvalues: None,
             call_arity: arity as usize,
-            return_value: Value::None,
             exc_handlers: Vec::new(),
-            return_ip: None,
             error_ip: None,
             handling_exception: false,
         }
@@ -1195,6 +1200,7 @@ impl ObjFiber {
             closure,
             ip,
             slot_base: self.stack.len() - arity,
+            pending_return: None,
         })
     }
 
@@ -1263,14 +1269,15 @@ impl ObjFiber {
         self.exc_handlers.pop()
     }
 
+    pub(crate) fn set_return_data(&mut self, value: Value, ip: *const u8) {
+        self.current_frame_mut()
+            .expect("Expected CallFrame.")
+            .pending_return = Some((value, ip));
+    }
+
     pub(crate) fn take_return_data(&mut self) -> Option<(Value, *const u8)> {
-        if let Some(ip) = self.return_ip.take() {
-            let value = self.return_value;
-            self.return_value = Value::None;
-            Some((value, ip))
-        } else {
-            None
-        }
+        self.current_frame_mut()
+            .and_then(|frame| frame.pending_return.take())
     }
 
     pub(crate) fn store_error_ip_or(&mut self, alternative: *const u8) {
@@ -1304,7 +1311,6 @@ impl GcManaged for ObjFiber {
         if let Some(&caller) = self.caller.as_ref() {
             caller.mark();
         }
-        self.return_value.mark();
     }
 
     fn blacken(&self) {
@@ -1316,7 +1322,6 @@ impl GcManaged for ObjFiber {
         if let Some(&caller) = self.caller.as_ref() {
             caller.blacken();
         }
-        self.return_value.blacken();
     }
 
     #[cfg(feature = "verif_hooks")]
@@ -1328,9 +1333,11 @@ impl GcManaged for ObjFiber {
         }
         for frame in self.frames.iter() {
             sink.edge("ObjFiber.frames.closure", &frame.closure);
+            if let Some((value, _)) = frame.pending_return.as_ref() {
+                value.verif_value_edge("ObjFiber.return_value", sink);
+            }
         }
         sink.opt_edge("ObjFiber.open_upvalues", &self.open_upvalues);
-        self.return_value.verif_value_edge("ObjFiber.return_value", sink);
     }
 
     #[cfg(feature = "verif_hooks")]
